@@ -38,6 +38,8 @@ Section C11.
   Variable dec_ota : blob -> option (list (N * N)).
   Variable enc_scenes : list (N * N) -> blob.
   Variable dec_scenes : blob -> option (list (N * N)).
+  Variable enc_sub : N * N -> blob.
+  Variable dec_sub : blob -> option (N * N).
   Hypothesis rt_fab : forall i f, dec_fab (enc_fab i f) = Some (i, f).
   Hypothesis rt_basic : forall v, dec_basic (enc_basic v) = Some v.
   Hypothesis rt_nets : forall v, dec_nets (enc_nets v) = Some v.
@@ -49,25 +51,26 @@ Section C11.
   Hypothesis rt_icd : forall v, dec_icd (enc_icd v) = Some v.
   Hypothesis rt_ota : forall v, dec_ota (enc_ota v) = Some v.
   Hypothesis rt_scenes : forall v, dec_scenes (enc_scenes v) = Some v.
+  Hypothesis rt_sub : forall v, dec_sub (enc_sub v) = Some v.
 
   Notation stepf := (step blob enc_fab dec_fab enc_basic dec_basic enc_nets dec_nets enc_labels dec_labels
                           enc_binds dec_binds enc_res dec_res enc_tz dec_tz enc_tts dec_tts
-                          enc_icd dec_icd enc_ota dec_ota enc_scenes dec_scenes).
+                          enc_icd dec_icd enc_ota dec_ota enc_scenes dec_scenes enc_sub dec_sub).
   Notation step := (stepf true).
   Notation run := (run blob enc_fab dec_fab enc_basic dec_basic enc_nets dec_nets enc_labels dec_labels
                        enc_binds dec_binds enc_res dec_res enc_tz dec_tz enc_tts dec_tts
-                          enc_icd dec_icd enc_ota dec_ota enc_scenes dec_scenes true).
+                          enc_icd dec_icd enc_ota dec_ota enc_scenes dec_scenes enc_sub dec_sub true).
   Notation startup := (startup blob dec_fab dec_basic dec_nets dec_labels dec_binds enc_res dec_res
-                               dec_tz dec_tts dec_icd dec_ota dec_scenes).
+                               dec_tz dec_tts dec_icd dec_ota dec_scenes enc_sub dec_sub).
   Notation boot := (boot blob dec_fab dec_basic dec_nets dec_labels dec_binds enc_res dec_res
-                         dec_tz dec_tts dec_icd dec_ota dec_scenes).
-  Notation Inv := (Inv blob enc_fab enc_basic enc_nets enc_labels enc_binds enc_res enc_tz enc_tts enc_icd enc_ota enc_scenes).
+                         dec_tz dec_tts dec_icd dec_ota dec_scenes enc_sub dec_sub).
+  Notation Inv := (Inv blob enc_fab enc_basic enc_nets enc_labels enc_binds enc_res enc_tz enc_tts enc_icd enc_ota enc_scenes enc_sub).
   Notation state_at := (state_at blob enc_fab dec_fab enc_basic dec_basic enc_nets dec_nets enc_labels dec_labels
                                  enc_binds dec_binds enc_res dec_res enc_tz dec_tz enc_tts dec_tts
-                          enc_icd dec_icd enc_ota dec_ota enc_scenes dec_scenes).
+                          enc_icd dec_icd enc_ota dec_ota enc_scenes dec_scenes enc_sub dec_sub).
   Notation cut_inside := (cut_inside blob enc_fab dec_fab enc_basic dec_basic enc_nets dec_nets enc_labels dec_labels
                                      enc_binds dec_binds enc_res dec_res enc_tz dec_tz enc_tts dec_tts
-                          enc_icd dec_icd enc_ota dec_ota enc_scenes dec_scenes).
+                          enc_icd dec_icd enc_ota dec_ota enc_scenes dec_scenes enc_sub dec_sub).
   Notation full_log := (full_log blob).
   Notation committed_view := (committed_view blob).
 
@@ -104,10 +107,12 @@ Section C11.
       (2 <= length (kvlog blob (snd (step (state_at st0 ops j) o))))%nat.
   Proof. intros; eapply cut_inside_multi; eassumption. Qed.
 
-  (** the answer to the peer is the last effect of every operation: all its writes precede it *)
+  (** the answer to the peer is the last effect of every operation: all its writes precede it -
+      except for a subscribe request, whose table is persisted best-effort AFTER the answer *)
   Theorem C11_ack_implies_durable : forall fx (st : state blob) (o : op),
+    (forall c v, o <> OSub c v) ->
     ack_is_last blob (snd (stepf fx st o)) = true.
-  Proof. intros; apply ack_after_writes. Qed.
+  Proof. intros; apply ack_after_writes; assumption. Qed.
 
   (** ... and what was answered is there after a restart right behind the operation *)
   Theorem C11_acked_change_survives : forall (st : state blob) (o : op), Inv st ->
@@ -146,7 +151,7 @@ Section C11.
     exists r ops,
       startup (aset (s_kv st) K_RESUMP b) = Some (r, ops) /\
       committed_view st r /\
-      (dec_res b = None -> r_resump r = [] /\ ops = [KRemove K_RESUMP]) /\
+      (dec_res b = None -> r_resump r = [] /\ In (KRemove K_RESUMP) ops) /\
       (aget (replay blob (aset (s_kv st) K_RESUMP b) ops) K_RESUMP = None \/
        exists l, dec_res b = Some l /\
          (aget (replay blob (aset (s_kv st) K_RESUMP b) ops) K_RESUMP = Some b \/
@@ -170,7 +175,7 @@ Print Assumptions C11_bad_cache_boots.
 (** ** The hypotheses are satisfiable, the classes set aside are inhabited *)
 
 Notation i_step := (c_step true).
-Notation i_Inv := (Inv cblob BFab BBasic BNets BLabels BBinds BRes BTz BTts BIcd BOta BScenes).
+Notation i_Inv := (Inv cblob BFab BBasic BNets BLabels BBinds BRes BTz BTts BIcd BOta BScenes BSub).
 
 (** the codec instance of Model/PersistSpec.v reads back what it wrote *)
 Example C11_codecs_satisfiable :
@@ -179,7 +184,7 @@ Example C11_codecs_satisfiable :
   (forall v, c_dec_binds (BBinds v) = Some v) /\ (forall v, c_dec_res (BRes v) = Some v) /\
   (forall v, c_dec_tz (BTz v) = Some v) /\ (forall v, c_dec_tts (BTts v) = Some v) /\
   (forall v, c_dec_icd (BIcd v) = Some v) /\ (forall v, c_dec_ota (BOta v) = Some v) /\
-  (forall v, c_dec_scenes (BScenes v) = Some v).
+  (forall v, c_dec_scenes (BScenes v) = Some v) /\ (forall v, c_dec_sub (BSub v) = Some v).
 Proof. repeat split. Qed.
 
 (** the initial states of the harness satisfy the invariant *)
@@ -202,6 +207,7 @@ Proof.
   - left. split; reflexivity.
   - left. split; reflexivity.
   - left. split; reflexivity.
+  - intros i Hi. left. reflexivity.
   - destruct pase; cbn; intros pf H; congruence.
   (* two commissioned fabrics *)
   - cbn. repeat constructor; cbn; intuition congruence.
@@ -226,15 +232,20 @@ Proof.
   - left. split; reflexivity.
   - left. split; reflexivity.
   - left. split; reflexivity.
+  - intros i Hi. left. cbn [init_state s_kv].
+    change (init_fabs 2) with [(1, init_fabric 1); (2, init_fabric 2)].
+    cbn [map fst snd aget]. rewrite !fabric_key_id.
+    destruct (N.eqb_spec (SUBS_START + i) 1) as [E1|E1]; [unfold SUBS_START in E1; lia|].
+    destruct (N.eqb_spec (SUBS_START + i) 2) as [E2|E2]; [unfold SUBS_START in E2; lia|]. reflexivity.
   - destruct pase; cbn; intros pf H; congruence.
 Qed.
 
 Definition c_run (fx : bool) : c_state -> list op -> c_state * list (list (ev cblob)) :=
   run cblob BFab c_dec_fab BBasic c_dec_basic BNets c_dec_nets BLabels c_dec_labels BBinds c_dec_binds BRes c_dec_res
-      BTz c_dec_tz BTts c_dec_tts BIcd c_dec_icd BOta c_dec_ota BScenes c_dec_scenes fx.
+      BTz c_dec_tz BTts c_dec_tts BIcd c_dec_icd BOta c_dec_ota BScenes c_dec_scenes BSub c_dec_sub fx.
 Definition c_boot : kv cblob -> option ram :=
   boot cblob c_dec_fab c_dec_basic c_dec_nets c_dec_labels c_dec_binds BRes c_dec_res
-       c_dec_tz c_dec_tts c_dec_icd c_dec_ota c_dec_scenes.
+       c_dec_tz c_dec_tts c_dec_icd c_dec_ota c_dec_scenes BSub c_dec_sub.
 Definition fab_acl (r : option ram) (i : N) : option N :=
   match r with Some r => option_map f_acl (aget (r_fabs r) i) | None => None end.
 Definition fab_label (r : option ram) (i : N) : option N :=
@@ -291,6 +302,34 @@ Theorem C11_reset_leftover_witness :
   filter (fun k => negb (existsb (N.eqb k) reset_keys)) layout_keys = nrange 2063 2033.
 Proof. vm_compute. reflexivity. Qed.
 Print Assumptions C11_reset_leftover_witness.
+
+(** persisted subscriptions are best effort: the answer precedes the 15 key-value operations that
+    write the table back; a power loss inside them restarts with a duplicated record; a factory reset
+    removes the records but not the table in memory *)
+Theorem C11_subscription_best_effort_witness :
+  let st0 := init_state 2 false in
+  let (st1, evs) := i_step st0 (OSub (SC 1) 3) in
+  hd (EAck Refused) evs = EAck Ok /\ length (c_kvlog evs) = 15%nat /\
+  let ops := [OSub (SC 1) 3; OSub (SC 2) 4; OSub (SC 1) 5] in
+  let log := flat_map c_kvlog (snd (c_run true st0 ops)) in
+  option_map r_subs (c_boot (c_replay (s_kv st0) (firstn 30 log))) = Some [(1, 3); (2, 4)] /\
+  option_map r_subs (c_boot (c_replay (s_kv st0) (firstn 31 log))) = Some [(2, 4); (2, 4)] /\
+  option_map r_subs (c_boot (c_replay (s_kv st0) (firstn 45 log))) = Some [(2, 4); (1, 5)] /\
+  r_subs (s_ram (fst (c_run true st0 [OSub (SC 1) 3; OReset]))) = [(1, 3)].
+Proof. vm_compute. repeat split. Qed.
+Print Assumptions C11_subscription_best_effort_witness.
+
+(** the stores of the other handlers: time zone, trusted time source (removed with its fabric),
+    ICD registration, OTA provider and scene (dropped with their fabric) *)
+Example C11_other_stores_example :
+  let st0 := init_state 2 false in
+  let ops := [OTz (SC 1) 3; OTts (SC 2) 9; OIcd (SC 2) 4; OOta (SC 2) 5; OScene (SC 2) 6; OIcd (SC 1) 7;
+              ORemove (SC 1) 2; OCrash] in
+  let st := fst (c_run true st0 ops) in
+  r_tz (s_ram st) = 3 /\ r_tts (s_ram st) = None /\ r_icd (s_ram st) = [(1, 7)] /\
+  r_ota (s_ram st) = [] /\ r_scenes (s_ram st) = [] /\
+  length (flat_map c_kvlog (snd (c_run true st0 ops))) = 12%nat.
+Proof. vm_compute. repeat split. Qed.
 
 (** a commissioning committed, a label write, a restart: durable; the invariant's hypotheses are met *)
 Example C11_history_example :
